@@ -72,7 +72,11 @@ Choices == IF Ev.cls = "in" THEN {b \in Allowed(Ev.r, Ev.near) : SameCnt(Ev.post
 (* --- clauses --- *)
 FillClauses ==
   [ outcome |-> Ok,                                             \* every numeric value is accepted
-    routed  |-> ~Ok \/ IF Ev.cls = "in" THEN Choices # {} ELSE SameCnt(Ev.post, BumpFlow(Ev.cls, Ev.w)),
+    routed  |-> ~Ok \/ IF Ev.cls = "in" THEN Choices # {}
+                       ELSE IF Ev.cls = "sat"      \* a saturated sparse index: exactly one bin, whichever, got the weight
+                       THEN \E k \in DOMAIN Ev.post.bins :
+                               SameCnt(Ev.post, [cnt EXCEPT !.e = Add(@, Ev.w), !.bins = PutF(@, k, Add(Get(@, k), Ev.w))])
+                       ELSE SameCnt(Ev.post, BumpFlow(Ev.cls, Ev.w)),
     unchanged |-> Ok \/ SameCnt(Ev.post, cnt) ]
 
 XEntClauses ==
